@@ -1,6 +1,6 @@
 """C03 - a run terminates, reaches the end time, and walks each life cycle once."""
 from .. import bootstrap  # noqa: F401
-from ..gen import gen_e1
+from ..gen import gen_e1, gen_e1_long
 from ..monitor import run_e1
 from ..findings import e1_known_sig
 
@@ -35,6 +35,8 @@ def generate(tape, tier="quick"):
         # real library components stepping with relativedelta (months from a month-end day, mixed with days)
         from ..calendar import gen_calendar
         return gen_calendar(tape)
+    if tape.chance(1, 120):
+        return gen_e1_long(tape)
     return gen_e1(tape, tier, allow_finish=True)
 
 
@@ -49,6 +51,8 @@ RULE = RULE + (" A 1/20 share is the library family (sim/library.py): CallbackGe
                "DebugPushConsumer / ScheduleLogger, direct or through Scale; oracles here: run() returns, every component ends FINALIZED, time components reach the end unless the reader ran out of rows (it then reports FINISHED), the writer's file has one row per step.")
 REAL = list(REAL) + ["CsvReader, CsvWriter, TimeTrigger, WeightedSum, StaticCallbackGenerator, DebugPushConsumer, ScheduleLogger (library family)"]
 CAL_OWN = ('cal-run-raises', 'cal-time-not-increasing', 'cal-end-not-reached')
+
+RULE = RULE + (' A 1/120 share is the large family (gen.gen_e1_long): a series of 14-70 components each reading its upstream neighbour while connecting, listed downstream-first / upstream-first / shuffled, or an hourly producer read through a delay of 130-260 hours by a slow consumer (and directly by a prompt one).')
 
 
 def execute(sc):
